@@ -24,11 +24,18 @@ ASSUMPTIONS = [
 ]
 
 WN = ["w0", "w1"]
+# watch name suffixes: r = recursive, F = event_filter [FileCreatedEvent], E = event_filter [] (emits nothing)
+VARIANTS = ["w0r", "w0F", "w0E"]
+
+
+def watch_spec(name):
+    base = name.rstrip("rFE")
+    return "/" + base, "r" in name[len(base):], ("F" if "F" in name[len(base):] else ("E" if "E" in name[len(base):] else None))
 
 
 def ops_for(model, phase, handlers, recursive_variants=False):
     out = []
-    ws = WN + (["w0r"] if recursive_variants else [])
+    ws = WN + (VARIANTS if recursive_variants else [])
     for w in ws:
         for h in handlers:
             out.append(("schedule", h, w, None))
@@ -101,10 +108,10 @@ class RegHarness(ex.Harness):
                     raise OSError("injected: emitter cannot be created")
                 super().__init__(event_queue, watch, timeout=timeout, event_filter=event_filter)
                 self.fail_start = fault == "start"
-                self.wname = watch.path[1:] + ("r" if watch.is_recursive else "")
+                self.wname = wname(watch)
 
             def __hash__(self):
-                return 100 + (WN + ["w0r"]).index(self.wname)
+                return 100 + (WN + VARIANTS).index(self.wname)
 
             def __eq__(self, o):
                 return self is o
@@ -129,6 +136,10 @@ class RegHarness(ex.Harness):
             def dispatch(self, event):
                 received.append((self.hname, event.src_path))
 
+        def wname(w):
+            f = w.event_filter
+            return w.path[1:] + ("r" if w.is_recursive else "") + ("" if f is None else ("F" if f else "E"))
+
         handlers = {h: Handler(h) for h in self.handlers}
         obs = api.BaseObserver(FaultEmitter, timeout=1.0)
         watches = {}
@@ -136,8 +147,6 @@ class RegHarness(ex.Harness):
         problems = []
         marker = 0
 
-        def wname(w):
-            return w.path[1:] + ("r" if w.is_recursive else "")
 
         def canon(v, depth=0):
             if isinstance(v, api.ObservedWatch):
@@ -166,9 +175,10 @@ class RegHarness(ex.Harness):
             try:
                 if k == "schedule":
                     plan["next"] = op[3]
-                    path, rec = "/" + op[2].rstrip("r"), op[2].endswith("r")
+                    path, rec, flt = watch_spec(op[2])
+                    ef = None if flt is None else ([events.FileCreatedEvent] if flt == "F" else [])
                     try:
-                        watches[op[2]] = obs.schedule(handlers[op[1]], path, recursive=rec)
+                        watches[op[2]] = obs.schedule(handlers[op[1]], path, recursive=rec, event_filter=ef)
                     finally:
                         plan["next"] = None
                 elif k == "unschedule":
@@ -214,6 +224,8 @@ class RegHarness(ex.Harness):
                     s.idle("drain")
                     got = sorted(h for h, _ in received)
                     exp = sorted(model.get(wname(e.watch), ()))
+                    if wname(e.watch).endswith("E"):
+                        exp = []       # an empty filter selects nothing
                     if got != exp:
                         problems.append(("routing", f"marker through emitter of {wname(e.watch)} reached {got}, "
                                                     f"reference says {exp}"))
